@@ -38,6 +38,19 @@ struct Ledger {
     blocked_since_ms: Option<u64>,
     /// delivery times of the first client datagrams
     rcv_times: Vec<u64>,
+    /// the same ledger for the address the client's datagrams come from after a NAT rebinding (never validated:
+    /// one datagram is forwarded from it, then the network drops everything)
+    mig_received: u64,
+    mig_sent: u64,
+    mig_sends: u64,
+    mig_first_violation: Option<Value>,
+    mig_only_initial_overdrafts: bool,
+    mig_worst_over: u64,
+    mig_long_header: bool,
+}
+
+fn migrated_addr() -> std::net::SocketAddr {
+    "10.0.0.2:6666".parse().unwrap()
 }
 
 #[derive(Clone, Debug)]
@@ -68,7 +81,12 @@ pub fn gen_case(rng: &mut Rng, seed: u64, horizon_ms: u64) -> Case {
     let lat = Duration::from_millis(*rng.pick(&[1u64, 10, 40, 100]));
     let mut c2s = FaultProfile { latency: lat, ..Default::default() };
     let mut s2c = FaultProfile { latency: lat, ..Default::default() };
-    let (label, class) = match rng.below(6) {
+    let (label, class) = match rng.below(7) {
+        6 => {
+            // established connection, transfer in progress: the client's 61st datagram arrives from another port
+            // (NAT rebinding); that address sends nothing more and can never answer a challenge
+            ("NAT rebinding after 60 client datagrams, one datagram forwarded from the new address".to_string(), "migrated-path")
+        }
         0 | 1 => {
             let n = rng.range(1, 3);
             c2s.mute_after = Some(n);
@@ -112,12 +130,25 @@ fn run_case(case: &Case) -> (Ledger, scenario::Outcome) {
     let l2 = ledger.clone();
     let sa = server_addr();
     let ca = client_addr();
+    let rebind = case.class == "migrated-path";
     let hook: scenario::NetHook = Box::new(move |net: &crate::sim::SimNet| {
         let l1 = l1.clone();
         let l2 = l2.clone();
         net.with(|n| {
             n.keep_log = std::env::var("L2_KEEP_LOG").is_ok();
+            if rebind {
+                n.rebind = Some(crate::sim::Rebind { old: ca, new: migrated_addr(), after: 60, forward: 1, forwarded: 0 });
+            }
             n.on_deliver = Some(Box::new(move |ev| {
+                if ev.dst == sa && ev.src == migrated_addr() {
+                    let mut g = l1.lock().unwrap();
+                    g.mig_received += ev.len as u64;
+                    // a Handshake (or Initial) packet from the new address is an address-validating event of its own;
+                    // only a datagram of 1-RTT packets leaves the new address unvalidated
+                    if ev.kinds != "s" {
+                        g.mig_long_header = true;
+                    }
+                }
                 if ev.dst == sa && ev.src == ca {
                     let mut g = l1.lock().unwrap();
                     g.received += ev.len as u64;
@@ -132,6 +163,21 @@ fn run_case(case: &Case) -> (Ledger, scenario::Outcome) {
                 }
             }));
             n.on_send = Some(Box::new(move |ev| {
+                if ev.src == sa && ev.dst == migrated_addr() {
+                    let mut g = l2.lock().unwrap();
+                    g.mig_sent += ev.len as u64;
+                    g.mig_sends += 1;
+                    if g.mig_sent > 3 * g.mig_received {
+                        if g.mig_first_violation.is_none() {
+                            g.mig_only_initial_overdrafts = true;
+                            g.mig_first_violation = Some(json!({"t_ms": ev.t.as_millis() as u64, "sent_total": g.mig_sent, "received_total": g.mig_received, "this_datagram": ev.len, "kinds": ev.kinds}));
+                        }
+                        if !ev.kinds.contains('i') {
+                            g.mig_only_initial_overdrafts = false;
+                        }
+                        g.mig_worst_over = g.mig_worst_over.max(g.mig_sent - 3 * g.mig_received);
+                    }
+                }
                 if ev.src == sa && ev.dst == ca {
                     let mut g = l2.lock().unwrap();
                     if g.validated_at_ms.is_some() {
@@ -200,6 +246,26 @@ fn judge(rep: &mut Report, case: &Case, l: &Ledger, out: &scenario::Outcome) {
             );
         } else {
             rep.count("resumption_handshakes_completed");
+        }
+    }
+    if case.class == "migrated-path" && l.mig_long_header {
+        rep.count("migrated_path_scenarios_not_judged_rebinding_during_handshake");
+    } else if case.class == "migrated-path" {
+        if l.mig_received > 0 {
+            rep.count("migrated_path_scenarios_with_a_datagram_from_the_new_address");
+            rep.add("migrated_path_server_sends_checked", l.mig_sends);
+            rep.add("migrated_path_bytes_received", l.mig_received);
+            rep.add("migrated_path_bytes_sent", l.mig_sent);
+        } else {
+            rep.count("migrated_path_scenarios_without_client_traffic_at_rebinding");
+        }
+        if let Some(fv) = &l.mig_first_violation {
+            let sig = if l.mig_only_initial_overdrafts && l.mig_worst_over < 1500 { "C15.budget:padded-initial-overdraft".to_string() } else { "C15.budget:migrated-path".to_string() };
+            rep.violation(
+                sig,
+                format!("after a NAT rebinding the server sent {} bytes to the new, never validated address that had delivered {} bytes (first overdraft: {}; worst overdraft {} bytes) [{}]", l.mig_sent, l.mig_received, fv, l.mig_worst_over, case.label),
+                case.to_json(),
+            );
         }
     }
     if let Some(fv) = &l.first_violation {
